@@ -334,7 +334,10 @@ Section Model.
     | S k' => firstn (S p) w :: split_rows p k' (skipn (S p) w)
     end.
 
-  Definition lr_fit (L : lb_params) (B : bt_params) (p : nat) (x : list (list T)) (y : list T) (alpha : T)
+  (* the scalar forms are parameters so that theorems can speak about fit with the exact ln(1+e^x), 1/(1+e^-x)
+     and softmax substituted for the overflow-safe ones; `lr_fit` is the code *)
+  Definition lr_fit_gen (lse sg : T -> T) (sm : list T -> list T)
+             (L : lb_params) (B : bt_params) (p : nat) (x : list (list T)) (y : list T) (alpha : T)
     : option lr_model :=
     if negb (Nat.eqb (length x) (length y)) then None else
     let classes := unique y in
@@ -342,17 +345,18 @@ Section Model.
     let yi := map (fun v => match position v classes with Some i => i | None => 0%nat end) y in
     if (k <? 2)%nat then None
     else if Nat.eqb k 2 then
-      match optimize (binary_f p x yi alpha) (binary_df p x yi alpha) L B (zeros (S p)) with
+      match optimize (binary_f_gen lse p x yi alpha) (binary_df_gen sg p x yi alpha) L B (zeros (S p)) with
       | None => None
       | Some (st, _, _) => Some (mkLr [firstn p (st_x st)] [nth p (st_x st) zero] classes k)
       end
     else
-      match optimize (multi_f p k x yi alpha) (multi_df p k x yi alpha) L B (zeros (k * S p)) with
+      match optimize (multi_f_gen sm p k x yi alpha) (multi_df_gen sm p k x yi alpha) L B (zeros (k * S p)) with
       | None => None
       | Some (st, _, _) =>
           let rows := split_rows p k (st_x st) in
           Some (mkLr (map (firstn p) rows) (map (fun r => nth p r zero) rows) classes k)
       end.
+  Definition lr_fit := lr_fit_gen ln_1pe sigmoid softmax.
 
   (* class index chosen for one query row *)
   Definition predict_index (M : lr_model) (row : list T) : nat :=
